@@ -68,6 +68,7 @@ def model_run(model, argv):
     return {"kind": "error", "raw": r[:200]}
 
 
+NEG_ZERO = re.compile(rb"(?<![\w.+-])-0(?![\w.])")
 NUM_RE = re.compile(rb"-?\d+(?:\.\d+)?(?:e-?\d+)?|\?[-0-9.]*|NaN|-?inf")
 
 
@@ -148,6 +149,10 @@ def compare(model_res, impl, fmt="tabs", ncols=None):
     if impl["status"] != model_res["status"]:
         return "exit status %s vs model %s" % (impl["status"], model_res["status"])
     mo, io = model_res["out"], impl["out"]
+    if mo != io:
+        # the model computes in ℚ, which has no signed zero: a cell `-0` is the same value as `0`
+        mo = NEG_ZERO.sub(b"0", mo)
+        io = NEG_ZERO.sub(b"0", io)
     if mo != io:
         ok = False
         if model_res["unordered"]:
